@@ -618,9 +618,7 @@ func runC04(c *Ctx) {
 				c.Check(FuncKey(w.Parent())+"::build-id-part-contains-action-id#"+itoa(nBuildID-1), w.Pos(), suffixOnly == "", "what is hashed of a build id must include its first component (the action id, which covers every input of the compilation including comments): found %s", suffixOnly)
 			}
 		}
-		if nBuildID < 2 {
-			c.Undecided("computeHash hashes fewer than 2 build ids (%d): package and imports expected", nBuildID)
-		}
+		c.Check(FuncKey(ch)+"::hashes-build-ids-of-package-and-imports", ch.Pos(), nBuildID >= 2, "computeHash writes %d build ids into the package hash; the package's own and each import's are expected (the import's build id is what makes a package's key change when a dependency changes)", nBuildID)
 		// GOOS / GOARCH (constants in SSA: use the AST)
 		fd, p := c.FuncDecl(ch.Object().(*types.Func))
 		seenSel := map[string]bool{}
